@@ -540,13 +540,15 @@ SUBS = [
         "operators; non-trivial = a pair closer than one ulp of its cycle count", quick=2500, thorough=60000, pieces_quick=3),
     Sub("reductions", red_case(), run_red,
         "min/max/argmin/argmax/sort/argsort/ptp as methods and np.min/np.max/np.argmin/np.argmax, axis None or any axis, keepdims: the result is a "
-        "correct answer under the exact order (any order among ties), a permutation where applicable, and a normalised Phase; non-trivial = two "
+        "correct answer under the exact order (any order among ties), a permutation where applicable, and a normalised Phase; in 2/3 of the cases an "
+        "ordering call and a sanctioned in-place update (negate / *= -3 / += q) of the same object come first; non-trivial = two "
         "elements of a lane closer than one ulp of their cycle count", quick=3000, thorough=60000, pieces_quick=4),
     Sub("long_reductions", red_long_case(), run_red_long,
         "min/max/argmin/argmax/sort/argsort/ptp of 65535..70001 phases whose fractions differ by multiples of 2^-50 at counts to 1e15, extremes "
         "sometimes at the last element or at index 65535; all non-trivial", quick=24, thorough=300, pieces_quick=4),
     Sub("rendering", render_case(), run_render,
-        "to_string(), to_string(precision=0..25), alwayssign, format(x, '[+][w].pf'), str(), arrays, imaginary phases, for counts to +-2^52 and "
+        "to_string(), to_string(precision=0..25), alwayssign, unit= given as 'cycle' / u.cycle / an equal unit built afresh, format(x, '[+][w].pf'), "
+        "str(), arrays, imaginary phases, for counts to +-2^52 and "
         "fractions incl. values within 1e-17 of an integer and decimal rounding ties; non-trivial = precision <= 1 or >= 16, or a fraction below "
         "1e-15, or |count| >= 2^40", quick=4000, thorough=80000, pieces_quick=4),
     Sub("parsing", parse_case(), run_parse,
